@@ -41,4 +41,21 @@ PROPS = {
                       'Model validated against tryExpandFQDN / resolveAddr / getListenerName of the real client and end to end through NDS+LDS pushes.',
         'level_note': 'Trusted: Lean kernel, extractor, correspondence harness. Domain: ASCII hosts, non-empty addresses.',
     },
+    'C08': {
+        'rule': 'random listeners (0-3 filter chains, Thrift-proxy and HTTP filters in any order, inline and/or named tables, missing listener / missing named table), '
+                'tables of 0-3 virtual hosts x 0-4 routes with overlapping path and header predicates (exact / prefix / regex, unique header names), nil matches, '
+                'metadata maps with present / absent / empty values, gRPC and non-gRPC, default (metainfo) and custom metadata extractor; every case is routed through '
+                'the real XDSRouter.Route; routes are distinguishable by a unique single cluster and timeout. Non-trivial: at least two routes of the case are eligible for the call',
+        'assumptions': COMMON_ASSUME + [
+            'the regular-expression engine (Go regexp) is a parameter of the model; the theorems hold for every engine; in correspondence runs the harness supplies the truth table',
+            'with several filter chains the router uses the last HTTP and the last Thrift-proxy filter (modelled as is; the property does not say which)',
+            'header conditions with duplicate names and unsupported patterns are the subject of C11',
+        ],
+        'level_text': 'Theorems for every regex semantics, table, metadata map and call: matchHTTP returns r iff r is at index i of the virtual-host-then-route flattening, '
+                      'matches, and no earlier index matches (first_match, index form); a route matches iff its path condition (exact path, else prefix exactly "/") and every '
+                      'header condition hold, a condition on an absent key being false; the path is /<pkg>.<svc>/<method> or /<svc>/<method>; for non-gRPC calls a matching Thrift-proxy '
+                      'route wins; gRPC calls do not depend on Thrift filters at all; inline before named; when nothing matches the result is an error; every returned route satisfies its own conditions. '
+                      'Model validated against XDSRouter.Route on generated listeners, tables and calls.',
+        'level_note': 'Trusted: Lean kernel; Go regexp (parameter); metainfo.GetAllValues; correspondence harness. No facts are extracted for this property: the tie is the correspondence run.',
+    },
 }
